@@ -104,7 +104,7 @@ def stepLine (s : DSt) (ws : List String) : DSt × String :=
     match decodeStr str with
     | some cs =>
       let r := if fn = "cpu" then cpuUnits cs else if fn = "size" then sizeToBytes cs
-               else if fn = "kb" then kilobytes cs else megabytes cs
+               else if fn = "kb" then kilobytes cs else if fn = "sec" then toSeconds cs else megabytes cs
       (s, showUnit r)
     | none => (s, "bad-op")
   | ["part", cell, name, cpu, disk, mem, limits] =>
